@@ -621,10 +621,11 @@ impl Fiber {
     ));
     allocator.push_root(stack);
 
-    // Assign the frame to the start of the stack and write in the fun
+    // Assign the frame to the start of the stack and carry over the callee
+    // slot, for a bound method this holds the receiver
     let stack_start = stack.as_mut_ptr();
     unsafe {
-      ptr::write(stack_start, val!(fun));
+      ptr::write(stack_start, *parent_stack_top);
     }
     frame.store_stack_start(stack_start);
 
